@@ -16,7 +16,8 @@ case "$cmd" in
   sed -i "s#\"/repo/#\"$base/repo/#g" "$base/verif/harness/Cargo.toml"
   echo "$base" ;;
  sync)
-  rsync -a --exclude harness/target --exclude harness/Cargo.toml --exclude out --exclude .git /verif/ "$base/verif/" ;;
+  rsync -a --exclude harness/target --exclude harness/Cargo.toml --exclude out --exclude .git /verif/ "$base/verif/"
+  git -C "$base/repo" checkout -q -- . && git -C "$base/repo" checkout -q --detach "$(git -C /repo rev-parse HEAD)" ;;
  rm)
   git -C /repo worktree remove --force "$base/repo" 2>/dev/null || true
   rm -rf "$base"; git -C /repo worktree prune ;;
